@@ -9,7 +9,9 @@ EXPLANATION = (
     "(position count * t) and dot (t1+t2): each returns Code<n_frac>; no rounding/int cast inside; R3 optimal sizes leave room for all-extreme inputs: "
     "sum/cumsum/trace n_int >= x.n_int + clog2(N) with N an over-estimate of the addend count, products n_int >= N*x.n_int + [signed and N>=2], n_frac >= "
     "N*x.n_frac, dot n_int >= x.n_int + y.n_int + clog2(K) + [both signed]; results are stored once through the funnel. Residual: functions not in the registry "
-    "(matmul) run on floats through the fallback; NumPy's own reductions are trusted to be exact on int64/object below their capacity (C19).")
+    "(matmul) run on floats through the fallback; NumPy's own reductions are trusted to be exact on int64/object below their capacity (C19)."
+    " Added after the third round of seeded changes: R5 __array_ufunc__/__array_function__ hand the caller's arguments and keyword record to the registered function unchanged and the post-processor passes the result object itself on; R6 __array__ exports values unless array_op_method == 'raw'; template sizes (C08.R3b); route selection (C07.R8)."
+)
 ASSUMPTIONS = ["x.size >= the number of elements reduced along any axis; diagonal(...).size is the trace length; x.shape[-1] is dot's contraction length",
                "cumprod: x.n_frac >= 0 and x.n_int >= 0 as in the property's quantifier"]
 TRUSTED = ["CPython ast", "fxlint ordering procedure (sound, incomplete)", "scale typing rules of DESIGN A6"]
